@@ -1,4 +1,316 @@
-import BipVerif.Model.Cardano
+/-
+C18 — Cardano: master key generators (Khovratovich-Law, Icarus, Byron legacy) produce clamped
+BIP32-Ed25519 keys; child keys follow the BIP32-Ed25519 formulas (and the Byron-legacy variants);
+Shelley and Byron addresses decode back to what was encoded.
+Property theorems only; the proofs live in `BipVerif/Lemmas/Cardano.lean`.
+Hashes, PBKDF2, the AEAD and curve arithmetic are opaque (only output lengths are used; the AEAD
+enters through the explicit hypothesis `AeadLaw`).
+-/
+import BipVerif.Lemmas.Cardano
+import BipVerif.Driver.Cardano
+
 namespace BipVerif.Props.C18
-theorem placeholder : True := trivial
+open BipVerif BipVerif.Prim BipVerif.Model BipVerif.Model.CardanoLemmas
+
+/-! ### 1. bit tweaking -/
+
+/-- mask `0x80` (Khovratovich-Law, Byron legacy): same length; byte 0 loses its 3 low bits;
+byte 31: bit 7 clear, bit 6 set, bits 0–5 unchanged; all other bytes unchanged -/
+theorem tweak_bits_128 (k : Bytes) (hk : 32 ≤ k.length) :
+    (tweakMasterBits 128 k).length = k.length ∧
+    ((tweakMasterBits 128 k).getD 0 0).toNat % 8 = 0 ∧
+    ((tweakMasterBits 128 k).getD 0 0).toNat / 8 = (k.getD 0 0).toNat / 8 ∧
+    64 ≤ ((tweakMasterBits 128 k).getD 31 0).toNat ∧ ((tweakMasterBits 128 k).getD 31 0).toNat < 128 ∧
+    ((tweakMasterBits 128 k).getD 31 0).toNat % 64 = (k.getD 31 0).toNat % 64 ∧
+    ((tweakMasterBits 128 k).getD 31 0).toNat &&& 32 = (k.getD 31 0).toNat &&& 32 ∧
+    ∀ j, j ≠ 0 → j ≠ 31 → (tweakMasterBits 128 k).getD j 0 = k.getD j 0 :=
+  CardanoLemmas.tweak_bits_128 k hk
+
+/-- mask `0xE0` (Icarus): byte 31 has bits 7 and 5 clear, bit 6 set (`64 ≤ · < 96`), bits 0–4
+unchanged -/
+theorem tweak_bits_224 (k : Bytes) (hk : 32 ≤ k.length) :
+    (tweakMasterBits 224 k).length = k.length ∧
+    ((tweakMasterBits 224 k).getD 0 0).toNat % 8 = 0 ∧
+    ((tweakMasterBits 224 k).getD 0 0).toNat / 8 = (k.getD 0 0).toNat / 8 ∧
+    64 ≤ ((tweakMasterBits 224 k).getD 31 0).toNat ∧ ((tweakMasterBits 224 k).getD 31 0).toNat < 96 ∧
+    ((tweakMasterBits 224 k).getD 31 0).toNat % 32 = (k.getD 31 0).toNat % 32 ∧
+    ∀ j, j ≠ 0 → j ≠ 31 → (tweakMasterBits 224 k).getD j 0 = k.getD j 0 :=
+  CardanoLemmas.tweak_bits_224 k hk
+
+/-- any mask: the byte-level formula -/
+theorem tweak_bits (mask : Nat) (k : Bytes) (hk : 32 ≤ k.length) :
+    (tweakMasterBits mask k).length = k.length ∧
+    ((tweakMasterBits mask k).getD 0 0).toNat % 8 = 0 ∧
+    ((tweakMasterBits mask k).getD 0 0).toNat / 8 = (k.getD 0 0).toNat / 8 ∧
+    ((tweakMasterBits mask k).getD 31 0).toNat =
+      (((k.getD 31 0).toNat % 256 - ((k.getD 31 0).toNat &&& mask)) ||| 64) % 256 ∧
+    ∀ j, j ≠ 0 → j ≠ 31 → (tweakMasterBits mask k).getD j 0 = k.getD j 0 :=
+  CardanoLemmas.tweak_bits mask k hk
+
+/-! ### 2. master keys are clamped -/
+
+/-- Khovratovich-Law: `kL % 8 = 0`, `2^254 ≤ kL < 2^255`, bit 253 clear; 64-byte key; 32-byte chain code -/
+theorem master_clamped_kholaw (seed k cc : Bytes) (h : kholawMasterKey seed = .ok (k, cc)) :
+    Bytes.toNatLE (k.take 32) % 8 = 0 ∧ 2 ^ 254 ≤ Bytes.toNatLE (k.take 32) ∧
+    Bytes.toNatLE (k.take 32) < 2 ^ 255 ∧ Bytes.toNatLE (k.take 32) / 2 ^ 253 % 2 = 0 ∧
+    k.length = 64 ∧ cc.length = 32 ∧ 16 ≤ seed.length := by
+  obtain ⟨a, b, c, d, _⟩ := kholawMasterKey_ok seed k cc h
+  exact ⟨d.low, d.ge254, d.lt255, d.bit253, b, c, a⟩
+
+theorem master_clamped_icarus (seed k cc : Bytes) (h : icarusMasterKey seed = .ok (k, cc)) :
+    Bytes.toNatLE (k.take 32) % 8 = 0 ∧ 2 ^ 254 ≤ Bytes.toNatLE (k.take 32) ∧
+    Bytes.toNatLE (k.take 32) < 2 ^ 255 ∧ Bytes.toNatLE (k.take 32) / 2 ^ 253 % 2 = 0 ∧
+    k.length = 64 ∧ cc.length = 32 ∧ 16 ≤ seed.length := by
+  obtain ⟨a, b, c, d⟩ := icarusMasterKey_ok seed k cc h
+  exact ⟨d.low, d.ge254, d.lt255, d.bit253, b, c, a⟩
+
+theorem master_clamped_byron_legacy (seed k cc : Bytes) (h : byronLegacyMasterKey seed = .ok (k, cc)) :
+    Bytes.toNatLE (k.take 32) % 8 = 0 ∧ 2 ^ 254 ≤ Bytes.toNatLE (k.take 32) ∧
+    Bytes.toNatLE (k.take 32) < 2 ^ 255 ∧ Bytes.toNatLE (k.take 32) / 2 ^ 253 % 2 = 0 ∧
+    k.length = 64 ∧ cc.length = 32 ∧ seed.length = 32 := by
+  obtain ⟨a, b, c, d⟩ := byronLegacyMasterKey_ok seed k cc h
+  exact ⟨d.low, d.ge254, d.lt255, d.bit253, b, c, a⟩
+
+/-- the Khovratovich-Law chain code is `HMAC-SHA256(key, 0x01 ‖ seed)` -/
+theorem master_kholaw_chain_code (seed k cc : Bytes) (h : kholawMasterKey seed = .ok (k, cc)) :
+    cc = hmacSha256 kholawHmacKey ([1] ++ seed) := (kholawMasterKey_ok seed k cc h).2.2.2.2
+
+/-- seed-length errors -/
+theorem master_seed_too_short_kholaw (seed : Bytes) (h : seed.length < 16) :
+    kholawMasterKey seed = .error .value := kholawMasterKey_short seed h
+theorem master_seed_too_short_icarus (seed : Bytes) (h : seed.length < 16) :
+    icarusMasterKey seed = .error .value := icarusMasterKey_short seed h
+theorem master_seed_wrong_length_byron_legacy (seed : Bytes) (h : seed.length ≠ 32) :
+    byronLegacyMasterKey seed = .error .value := byronLegacyMasterKey_badlen seed h
+
+/-- no other error class (except the never-observed fuel exhaustion of the model's re-hash loop) -/
+theorem master_error_kinds_kholaw (seed : Bytes) (e : Err) (h : kholawMasterKey seed = .error e) :
+    (e = .value ∧ seed.length < 16) ∨ (e = .fuel ∧ 16 ≤ seed.length) := kholawMasterKey_error seed e h
+theorem master_icarus_total (seed : Bytes) (h : 16 ≤ seed.length) :
+    ∃ k cc, icarusMasterKey seed = .ok (k, cc) := icarusMasterKey_total seed h
+theorem master_error_kinds_byron_legacy (seed : Bytes) (e : Err) (h : byronLegacyMasterKey seed = .error e) :
+    (e = .value ∧ seed.length ≠ 32) ∨ (e = .fuel ∧ seed.length = 32) :=
+  byronLegacyMasterKey_error seed e h
+
+/-! ### 3. child keys -/
+
+/-- BIP32-Ed25519: `kL' = 8·zL[:28] + kL` as a 32-byte little-endian integer -/
+theorem kholaw_child_left_spec (zl kl r : Bytes) (h : kholawNewLeft .kholaw zl kl = .ok r) :
+    Bytes.toNatLE r = Bytes.toNatLE (zl.take 28) * 8 + Bytes.toNatLE kl ∧ r.length = 32 :=
+  CardanoLemmas.kholaw_child_left_spec zl kl r h
+
+/-- it fails with `Bip32KeyError` iff the sum is `≡ 0 (mod L)` … -/
+theorem kholaw_child_left_key_iff (zl kl : Bytes) :
+    kholawNewLeft .kholaw zl kl = .error .key ↔
+      (Bytes.toNatLE (zl.take 28) * 8 + Bytes.toNatLE kl) % edL = 0 :=
+  CardanoLemmas.kholaw_child_left_key_iff zl kl
+
+/-- … and with `OverflowError` iff the sum is `≥ 2^256` and not `≡ 0 (mod L)` (the `mod L` test
+comes first in the code; the bare "iff `≥ 2^256`" is false, see the next theorem) -/
+theorem kholaw_child_left_overflow_iff (zl kl : Bytes) :
+    kholawNewLeft .kholaw zl kl = .error .overflow ↔
+      (Bytes.toNatLE (zl.take 28) * 8 + Bytes.toNatLE kl) % edL ≠ 0 ∧
+        2 ^ 256 ≤ Bytes.toNatLE (zl.take 28) * 8 + Bytes.toNatLE kl :=
+  CardanoLemmas.kholaw_child_left_overflow_iff zl kl
+
+/-- counter-example to "`OverflowError` iff `≥ 2^256`": the sum `16·L` is `≥ 2^256` and reported
+as `Bip32KeyError` -/
+theorem kholaw_child_left_key_above_2_256 :
+    ∃ zl kl : Bytes, zl.length = 32 ∧ kl.length = 32 ∧
+      2 ^ 256 ≤ Bytes.toNatLE (zl.take 28) * 8 + Bytes.toNatLE kl ∧
+      kholawNewLeft .kholaw zl kl = .error .key :=
+  CardanoLemmas.kholaw_child_left_key_above_2_256
+
+theorem kholaw_child_left_ok_iff (zl kl : Bytes) :
+    (∃ r, kholawNewLeft .kholaw zl kl = .ok r) ↔
+      (Bytes.toNatLE (zl.take 28) * 8 + Bytes.toNatLE kl) % edL ≠ 0 ∧
+        Bytes.toNatLE (zl.take 28) * 8 + Bytes.toNatLE kl < 2 ^ 256 :=
+  CardanoLemmas.kholaw_child_left_ok_iff zl kl
+
+theorem kholaw_child_left_error_kinds (zl kl : Bytes) (e : Err)
+    (h : kholawNewLeft .kholaw zl kl = .error e) : e = .key ∨ e = .overflow :=
+  kholaw_child_left_errors zl kl e h
+
+/-- multiples of 8 stay multiples of 8; each level adds less than `2^227` -/
+theorem kholaw_child_invariant (zl kl r : Bytes) (h : kholawNewLeft .kholaw zl kl = .ok r) :
+    (8 ∣ Bytes.toNatLE kl → 8 ∣ Bytes.toNatLE r) ∧
+    Bytes.toNatLE kl ≤ Bytes.toNatLE r ∧
+    Bytes.toNatLE r < Bytes.toNatLE kl + 2 ^ 227 ∧
+    (Bytes.toNatLE kl < 2 ^ 255 - 2 ^ 227 → Bytes.toNatLE r < 2 ^ 255) :=
+  CardanoLemmas.kholaw_child_invariant zl kl r h
+
+/-- after `d` levels from a master scalar `< 2^255`: `kL < 2^255 + d·2^227` -/
+theorem kholaw_depth_bound (zs : List Bytes) (kl r : Bytes) (hm : Bytes.toNatLE kl < 2 ^ 255)
+    (h : kholawLeftChain zs kl = .ok r) : Bytes.toNatLE r < 2 ^ 255 + zs.length * 2 ^ 227 :=
+  kholaw_depth_bound_master zs kl r hm h
+
+/-- hence `< 2^256` for every depth `≤ 255` … -/
+theorem kholaw_depth_bound_256 (zs : List Bytes) (kl r : Bytes) (hm : Bytes.toNatLE kl < 2 ^ 255)
+    (hd : zs.length ≤ 255) (h : kholawLeftChain zs kl = .ok r) : Bytes.toNatLE r < 2 ^ 256 :=
+  CardanoLemmas.kholaw_depth_bound_256 zs kl r hm hd h
+
+/-- … and `ToBytes(…, 32)` never overflows along such a chain -/
+theorem kholaw_no_overflow (zs : List Bytes) (kl : Bytes) (hm : Bytes.toNatLE kl < 2 ^ 255)
+    (hd : zs.length ≤ 255) : kholawLeftChain zs kl ≠ .error .overflow :=
+  kholaw_no_overflow_master zs kl hm hd
+
+/-- the same on real nodes: a Khovratovich-Law master built by `kholawMasterKey` / `icarusMasterKey`
+followed by any derivation path of at most 255 indices never raises `OverflowError` -/
+theorem kholaw_master_path_no_overflow (seed : Bytes) (m : Node)
+    (h : kholawMaster .kholaw kholawMasterKey seed = .ok m) (l : List Nat) (hl : l.length ≤ 255) :
+    l.foldlM kholawChildKey m ≠ .error .overflow :=
+  CardanoLemmas.kholaw_master_path_no_overflow kholawMasterKey seed m
+    (fun k cc hg => (kholawMasterKey_ok seed k cc hg).2.2.2.1) h l hl
+
+theorem icarus_master_path_no_overflow (seed : Bytes) (m : Node)
+    (h : kholawMaster .kholaw icarusMasterKey seed = .ok m) (l : List Nat) (hl : l.length ≤ 255) :
+    l.foldlM kholawChildKey m ≠ .error .overflow :=
+  CardanoLemmas.kholaw_master_path_no_overflow icarusMasterKey seed m
+    (fun k cc hg => (icarusMasterKey_ok seed k cc hg).2.2.2) h l hl
+
+/-- node level growth bound and divisibility along a whole path -/
+theorem kholaw_path_bound (l : List Nat) (nd c : Node) (k : Bytes)
+    (hs : nd.scheme = .kholaw) (hp : nd.priv = some k) (h : l.foldlM kholawChildKey nd = .ok c) :
+    ∃ k', c.priv = some k' ∧ c.scheme = .kholaw ∧
+      Bytes.toNatLE (k.take 32) ≤ Bytes.toNatLE (k'.take 32) ∧
+      Bytes.toNatLE (k'.take 32) < Bytes.toNatLE (k.take 32) + l.length * 2 ^ 227 + 1 ∧
+      (8 ∣ Bytes.toNatLE (k.take 32) → 8 ∣ Bytes.toNatLE (k'.take 32)) :=
+  CardanoLemmas.kholaw_path_bound l nd c k hs hp h
+
+/-- Byron legacy: `(8 ⊙ zL + kL) mod L` with byte-wise (carry-less) multiplication; never fails -/
+theorem legacy_variant_spec (zl kl r : Bytes) (h : kholawNewLeft .byronLegacy zl kl = .ok r) :
+    Bytes.toNatLE r = (Bytes.toNatLE (mulNoCarry8 zl) + Bytes.toNatLE kl) % edL ∧ r.length = 32 :=
+  CardanoLemmas.legacy_variant_spec zl kl r h
+
+theorem legacy_variant_total (zl kl : Bytes) : ∃ r, kholawNewLeft .byronLegacy zl kl = .ok r :=
+  CardanoLemmas.legacy_variant_total zl kl
+
+theorem legacy_mul_bytewise (b : Bytes) (i : Nat) :
+    (mulNoCarry8 b).length = b.length ∧
+    ((mulNoCarry8 b).getD i 0).toNat = (b.getD i 0).toNat * 8 % 256 :=
+  ⟨mulNoCarry8_length b, mulNoCarry8_getD b i⟩
+
+/-- right halves: `(zR + kR) mod 2^256` vs byte-wise addition -/
+theorem kholaw_right_spec (zr kr : Bytes) :
+    ∃ r, kholawNewRight .kholaw zr kr = .ok r ∧
+      Bytes.toNatLE r = (Bytes.toNatLE zr + Bytes.toNatLE kr) % 2 ^ 256 ∧ r.length = 32 :=
+  CardanoLemmas.kholaw_right_spec zr kr
+
+theorem legacy_right_spec (zr kr : Bytes) :
+    kholawNewRight .byronLegacy zr kr = .ok (addNoCarry zr kr) ∧
+    (addNoCarry zr kr).length = min zr.length kr.length ∧
+    ∀ i, i < zr.length → i < kr.length →
+      ((addNoCarry zr kr).getD i 0).toNat = ((zr.getD i 0).toNat + (kr.getD i 0).toNat) % 256 :=
+  CardanoLemmas.legacy_right_spec zr kr
+
+theorem legacy_right_not_modular :
+    ∃ zr kr : Bytes, zr.length = 32 ∧ kr.length = 32 ∧
+      Bytes.toNatLE (addNoCarry zr kr) ≠ (Bytes.toNatLE zr + Bytes.toNatLE kr) % 2 ^ 256 :=
+  CardanoLemmas.legacy_right_not_modular
+
+/-- index serialisation: 4 bytes, little-endian (Khovratovich-Law/Icarus) vs big-endian (legacy) -/
+theorem index_bytes_spec (s : Scheme) (idx : Nat) :
+    (kholawIndexBytes s idx).length = 4 ∧
+    (s = .byronLegacy → kholawIndexBytes s idx = Bytes.ofNatBE 4 idx) ∧
+    (s ≠ .byronLegacy → kholawIndexBytes s idx = Bytes.ofNatLE 4 idx) ∧
+    (idx < 2 ^ 32 → s = .byronLegacy → Bytes.toNatBE (kholawIndexBytes s idx) = idx) ∧
+    (idx < 2 ^ 32 → s ≠ .byronLegacy → Bytes.toNatLE (kholawIndexBytes s idx) = idx) :=
+  kholawIndexBytes_spec s idx
+
+/-! ### 4. Shelley -/
+
+/-- payment address: Bech32 of `netTag ‖ H(pub) ‖ H(stake)` (57 bytes); decodes to the two hashes.
+`k`, `s` are the validated (33-byte, `0x00`-prefixed) keys. -/
+theorem shelley_decode_encode (hrp : List Char) (hv : ValidHrp hrp) (netTag : Nat) (hn : netTag ≤ 15)
+    (pub stake : Bytes) (a : List Char) (h : shelleyEncode hrp netTag pub stake = .ok a) :
+    ∃ k s, addrKey .ed25519 pub = .ok k ∧ addrKey .ed25519 stake = .ok s ∧
+      bech32Encode hrp ([UInt8.ofNat netTag] ++ blake2b224 (k.drop 1) ++ blake2b224 (s.drop 1)) = .ok a ∧
+      shelleyDecode hrp netTag a = .ok (blake2b224 (k.drop 1) ++ blake2b224 (s.drop 1)) :=
+  CardanoLemmas.shelley_decode_encode hrp hv netTag (by omega) pub stake a h
+
+/-- staking address: header `0xE0 + netTag`, 29-byte payload -/
+theorem staking_decode_encode (hrp : List Char) (hv : ValidHrp hrp) (netTag : Nat) (hn : netTag ≤ 15)
+    (pub : Bytes) (a : List Char) (h : shelleyStakingEncode hrp netTag pub = .ok a) :
+    ∃ k, addrKey .ed25519 pub = .ok k ∧
+      bech32Encode hrp ([UInt8.ofNat (0xE0 + netTag)] ++ blake2b224 (k.drop 1)) = .ok a ∧
+      shelleyStakingDecode hrp netTag a = .ok (blake2b224 (k.drop 1)) :=
+  CardanoLemmas.staking_decode_encode hrp hv netTag (by omega) pub a h
+
+/-! ### 5. Byron -/
+
+/-- `82 d8 18 ‖ bytes(payload) ‖ uint(crc32 payload)` with payload `83 58 1c ‖ rootHash ‖ attrs ‖ 00` -/
+theorem byron_addr_structure (pub cc : Bytes) (hdEnc : Option Bytes) :
+    byronAddrBytes pub cc hdEnc =
+      [0x82, 0xd8, 0x18] ++ cborBytesItem (byronPayload pub cc hdEnc) ++
+        cborHead 0 (crc32 (byronPayload pub cc hdEnc)) ∧
+    cborUint (crc32 (byronPayload pub cc hdEnc)) = .ok (cborHead 0 (crc32 (byronPayload pub cc hdEnc))) ∧
+    byronPayload pub cc hdEnc =
+      [0x83, 0x58, 0x1c] ++ byronRootHash pub cc hdEnc ++ byronAttrs hdEnc ++ [0x00] :=
+  CardanoLemmas.byron_addr_structure pub cc hdEnc
+
+/-- decode ∘ encode = root hash ‖ encrypted path (stated for any `pub`, `cc`; in particular the
+32-byte ones) -/
+theorem byron_decode_encode (pub cc : Bytes) (hdEnc : Option Bytes)
+    (hl : (hdEnc.getD []).length < 2 ^ 16) :
+    byronDecode (b58Encode btcAlphabet (byronAddrBytes pub cc hdEnc)) =
+      .ok (blake2b224 (sha3_256 (byronRoot pub cc hdEnc)) ++ hdEnc.getD []) :=
+  CardanoLemmas.byron_decode_encode pub cc hdEnc (by omega)
+
+/-- the CRC is really checked: any other trailing CRC value is refused with `ValueError` -/
+theorem byron_crc_verifies (payload : Bytes) (crc : Nat) (hp : payload.length < 2 ^ 64)
+    (hc : crc < 2 ^ 64) (hne : crc ≠ crc32 payload) :
+    byronDecode (b58Encode btcAlphabet
+      (cborHead 4 2 ++ (cborHead 6 24 ++ cborBytesItem payload) ++ cborHead 0 crc)) = .error .value :=
+  byron_crc_mismatch payload crc hp hc hne
+
+theorem byron_icarus_decode_encode (pub cc : Bytes) (a : List Char) (h : byronIcarusEncode pub cc = .ok a) :
+    ∃ k, pubFromBytes .ed25519 pub = some k ∧ byronDecode a = .ok (byronRootHash (k.drop 1) cc none) :=
+  CardanoLemmas.byron_icarus_decode_encode pub cc a h
+
+/-- without an HD-path key the legacy encoder is the Icarus encoder -/
+theorem byron_legacy_encode_no_key (aead : Aead) (pub cc : Bytes) (path : List Nat) :
+    byronLegacyEncode aead pub cc path none = byronIcarusEncode pub cc :=
+  byronLegacyEncode_none aead pub cc path
+
+/-- Byron-legacy addresses decode to `rootHash ‖ AEAD(cbor path)` -/
+theorem byron_legacy_decode_encode (aead : Aead) (pub cc : Bytes) (path : List Nat) (key : Bytes)
+    (a : List Char) (h : byronLegacyEncode aead pub cc path (some key) = .ok a)
+    (hlen : ∀ p, (aead key byronNonce [] p).length + 200 < 2 ^ 64) :
+    ∃ k plain, pubFromBytes .ed25519 pub = some k ∧ cborIndefEncode path = .ok plain ∧
+      key.length = 32 ∧ cc.length = 32 ∧
+      byronDecode a = .ok (byronRootHash (k.drop 1) cc (some (aead key byronNonce [] plain)) ++
+        aead key byronNonce [] plain) :=
+  CardanoLemmas.byron_legacy_decode_encode aead pub cc path key a h hlen
+
+/-- path recovery under the AEAD law (`dec (ct[:-16]) (ct[-16:]) = plaintext`, `|ct| = |p| + 16`) -/
+theorem byron_path_recover (aead : Aead) (dec : AeadDec) (law : AeadLaw aead dec) (master : Node)
+    (first second : Nat) (addr : List Char)
+    (h : byronLegacyAddress aead master first second = .ok addr) :
+    byronRecoverPathWith dec master addr = .ok [harden first, harden second] :=
+  CardanoLemmas.byron_path_recover aead dec law master first second addr h
+
+/-- the AEAD law is a theorem for the reference ChaCha20-Poly1305 of `Prim` (xor with a key stream
+is an involution; the tag is recomputed from the same ciphertext; the tag has 16 bytes) … -/
+theorem chacha_aead_law : AeadLaw chachaAead chacha20Poly1305Decrypt := chacha_aeadLaw
+
+theorem chacha20_involutive (key : Bytes) (counter : Nat) (nonce data : Bytes) :
+    chacha20Xor key counter nonce (chacha20Xor key counter nonce data) = data :=
+  chacha20Xor_involutive key counter nonce data
+
+/-- … the driver's AEAD and path recovery are these very functions … -/
+theorem driver_aead_eq : Driver.chachaAead = chachaAead := by
+  funext key nonce aad plain
+  simp only [Driver.chachaAead, chachaAead, chacha20Poly1305Encrypt]
+theorem driver_recover_eq (master : Node) (addr : List Char) :
+    Driver.byronRecoverPath master addr = byronRecoverPathWith chacha20Poly1305Decrypt master addr := by
+  unfold Driver.byronRecoverPath byronRecoverPathWith
+  rfl
+
+/-- … hence, with no hypothesis: the wallet's own addresses give the derivation path back -/
+theorem byron_path_recover_chacha (master : Node) (first second : Nat) (addr : List Char)
+    (h : byronLegacyAddress Driver.chachaAead master first second = .ok addr) :
+    Driver.byronRecoverPath master addr = .ok [harden first, harden second] := by
+  rw [driver_recover_eq]; rw [driver_aead_eq] at h
+  exact CardanoLemmas.byron_path_recover_chacha master first second addr h
+
 end BipVerif.Props.C18
